@@ -89,3 +89,73 @@ Lemma ex_item_hyps :
                   /\ length (node_toks r2) = length (node_toks ex_open_num)
      | None => False end.
 Proof. vm_compute. auto 20. Qed.
+
+(* ---- optional fields: `... USD, EUR ; hi` -> raw_inline_comment = None -> `... USD, EUR` -> raw_booking = "STRICT"
+        -> `... USD, EUR "STRICT"`; and an inline comment created on the meta item (a path into a repeated field) ---- *)
+From AB Require Import TreeEditProofs3 TreeEditProofs4 TreeEditProofs5.
+
+Lemma classes_pivots_ok_all : classes_pivots_ok all_classes.
+Proof.
+  assert (H : forallb pivots_ok all_classes = true) by (vm_compute; reflexivity).
+  intros c Hc. rewrite forallb_forall in H. apply H. exact Hc.
+Qed.
+
+Definition ex_opt_seps : list tk := [mktk 301 "WHITESPACE" " "].
+Definition ex_booking : node := Leaf (mktk 300 "ESCAPED_STRING" """STRICT""").
+Definition ex_comment : node := Leaf (mktk 302 "INLINE_COMMENT" "; x").
+Definition ex_opt_removed : option (node * node) := remove_opt all_classes ex_open_num [] "_inline_comment".
+Definition ex_opt_created : option node :=
+  match ex_opt_removed with
+  | Some (_, r) => create_opt all_classes r [] "_booking" ex_opt_seps ex_booking
+  | None => None
+  end.
+Definition ex_opt_created_deep : option node :=
+  create_opt all_classes ex_open_num [SItem "_meta" 0%nat] "_inline_comment" [mktk 303 "WHITESPACE" " "] ex_comment.
+
+Definition fresh_list_b (N T : list tk) : bool :=
+  forallb (fun t => forallb (fun t' => negb (k_id t =? k_id t')) T) N.
+Lemma fresh_list_b_sound : forall N T, fresh_list_b N T = true ->
+  forall t t', In t N -> In t' T -> k_id t <> k_id t'.
+Proof.
+  intros N T H t t' Ht Ht'. unfold fresh_list_b in H. rewrite forallb_forall in H.
+  specialize (H t Ht). rewrite forallb_forall in H. specialize (H t' Ht').
+  apply negb_true_iff in H. apply Z.eqb_neq in H. exact H.
+Qed.
+
+Lemma ex_opt_hyps :
+  match ex_opt_removed with
+  | Some (x, r) =>
+      hwf_b all_classes r = true /\ conforms all_classes r = true /\ hwf_b all_classes x = true
+      /\ length (node_toks r) = (length (node_toks ex_open_num) - 2)%nat
+      /\ hwf_b all_classes ex_booking = true /\ conforms all_classes ex_booking = true
+      /\ exempt (UNode ex_booking) = false
+      /\ forallb (fun t => negb (significant t)) ex_opt_seps = true
+      /\ ids_nodup_b (ex_opt_seps ++ node_toks ex_booking) = true
+      /\ fresh_list_b (ex_opt_seps ++ node_toks ex_booking) (node_toks r) = true
+  | None => False end
+  /\ match ex_opt_created with
+     | Some r2 => hwf_b all_classes r2 = true /\ conforms all_classes r2 = true
+                  /\ length (node_toks r2) = length (node_toks ex_open_num)
+     | None => False end
+  /\ match ex_opt_created_deep with
+     | Some r3 => hwf_b all_classes r3 = true /\ conforms all_classes r3 = true
+                  /\ length (node_toks r3) = (length (node_toks ex_open_num) + 2)%nat
+     | None => False end.
+Proof. vm_compute. auto 20. Qed.
+
+(* the two edits as a history in the sense of TreeEditProofs5.edits2 *)
+Lemma ex_opt_history : exists r2, edits2 all_classes ex_open_num r2
+  /\ length (node_toks r2) = length (node_toks ex_open_num) /\ leaves r2 <> leaves ex_open_num.
+Proof.
+  eexists. split.
+  - eapply edits2_cons.
+    + eapply (edit2_remove all_classes ex_open_num [] "_inline_comment"). vm_compute. reflexivity.
+    + eapply edits2_cons; [|apply edits2_nil].
+      eapply (edit2_create all_classes _ [] "_booking" ex_opt_seps ex_booking).
+      * split; [apply hwf_b_sound; vm_compute; reflexivity|]. split; vm_compute; reflexivity.
+      * intros t [E|[]]. subst t. reflexivity.
+      * vm_compute. constructor; [intros [E|[]]; discriminate|]. constructor; [intros []|constructor].
+      * unfold fresh_for. apply fresh_list_b_sound. vm_compute. reflexivity.
+      * vm_compute. reflexivity.
+  - split; [vm_compute; reflexivity|]. vm_compute. discriminate.
+Qed.
